@@ -91,6 +91,8 @@ structure State where
   time : Int
   cHeight : Int                      -- header of the check state: the last committed block
   cTime : Int
+  index : List String                -- Tendermint's tx index: the transactions of committed blocks
+  blockTxs : List String             -- transactions delivered in the current block
   deriving Repr
 
 def forever : Int := -1
@@ -489,6 +491,8 @@ def handle (s : State) : Msg → Option State
       | none => none
       | some s1 =>
         let v1 := { v with tokens := v.tokens + amt, status := 2 }
+        -- `SetStakedValidator` computes the power-index key: `Int64()` panics for a power ≥ 2^63
+        if !v1.jailed && !isInt64 (power v1.tokens) then none else
         let s2 := setStaked (setVal s1 a v1) a v1
         some (if (aget s2.sign a).isSome then s2
               else { s2 with sign := aset s2.sign a { start := s.height, offset := 0, missed := 0, jailedUntil := 0, tomb := false } })
@@ -515,6 +519,7 @@ def handle (s : State) : Msg → Option State
         else if si.jailedUntil == forever || s.time < si.jailedUntil then none
         else
           let v1 := { v with jailed := false }
+          if v1.status == 2 && !isInt64 (power v1.tokens) then none else
           some (setStaked (setVal s a v1) a v1)
   | .send src dst amt => send s src dst amt
   | .changeParam src key val =>
@@ -546,6 +551,7 @@ structure Tx where
   fee : Int
   memo : Nat
   mutn : String       -- mutation applied after signing ("none" = intact)
+  id : String         -- identity of the transaction bytes (what the tx hash is computed from)
   deriving Repr
 
 /-- the fee actually carried by the transaction bytes -/
@@ -562,6 +568,8 @@ def anteOK (s : State) (t : Tx) (simulate : Bool) : Bool :=
   let signer := t.msg.signer s
   -- StdTx.ValidateBasic: a valid fee (no negative amount) and a non-empty signature
   t.feeEff ≥ 0 && t.mutn != "emptysig" &&
+  -- replay protection: the transaction must not be in the tx index already
+  !s.index.contains t.id &&
   -- memo
   (t.memoEff : Int) ≤ s.p.maxMemo &&
   -- key: from the signature, else from the signer's account (genesis accounts carry their key)
@@ -619,7 +627,7 @@ def genesis (g : Genesis) : State × List (Addr × Int) :=
     awards := [], burns := [], proposer := "", rel := [], p := g.p,
     acl := g.paramNames.map (fun n => (n, g.aclOwner)), daoOwner := g.daoOwner,
     pool := g.pool, feeAcc := g.feeAcc, posAcc := g.posAcc, daoAcc := g.daoAcc,
-    keys := g.keys, height := 0, time := 0, cHeight := 0, cTime := 0 }
+    keys := g.keys, height := 0, time := 0, cHeight := 0, cTime := 0, index := [], blockTxs := [] }
   let s1 := g.accs.foldl (fun st e => { setBal st e.1 e.2 with supply := st.supply + e.2 }) s0
   let s2 := g.vals.foldl (fun st e =>
     let v : Val := { status := 2, jailed := false, tokens := e.2, unstake := 0 }
@@ -647,10 +655,14 @@ component is the observable result: validator updates for `endBlock`, the result
 def step (s : State) : Op → Option (State × List (Addr × Int) × Bool)
   | .begin time proposer votes evs => (beginBlock s time proposer votes evs).map fun s' => (s', [], true)
   | .endBlock => (endBlock s).map fun r => (r.1, r.2, true)
-  | .commit => some ({ s with cHeight := s.height, cTime := s.time }, [], true)
+  | .commit =>
+    -- Tendermint indexes every transaction of the committed block
+    some ({ s with cHeight := s.height, cTime := s.time, index := s.blockTxs ++ s.index, blockTxs := [] }, [], true)
   | .award a amt => some ({ s with awards := aset s.awards a (((aget s.awards a).getD 0) + amt) }, [], true)
   | .burn a raw => some ({ s with burns := aset s.burns a (((aget s.burns a).getD 0) + raw) }, [], true)
-  | .tx mode t => let r := runTx s mode t; some (r.1, [], r.2)
+  | .tx mode t =>
+    let r := runTx s mode t
+    some ((if mode == .deliver then { r.1 with blockTxs := t.id :: r.1.blockTxs } else r.1), [], r.2)
 
 /-- run a history; `none` once the chain has halted -/
 def run (s : State) : List Op → Option State
